@@ -13,7 +13,7 @@ REGEXES = ["OBVIOUS_REDIRECTS_RE", "REDIRECTION_DOMAINS_RE"]
 
 KEYS = ["url", "u", "l", "q", "next", "redirect", "redirect_to", "target", "link", "goto", "redir", "orig", "U", "URL",
         "xurl", "urlx", "uu", "nexturl", "v"]
-HOSTS = ["a.com", "b.org", "www.youtube.com", "cdn.ampproject.org", "x.bc.marfeelcache.com", "bc.marfeel.com"]
+HOSTS = ["a.com", "b.org", "www.youtube.com", "cdn.ampproject.org", "x.bc.marfeelcache.com", "bc.marfeel.com", "[::1", "a.com]", "[::1]", "c.net"]
 
 
 class Timeout(Exception):
@@ -40,7 +40,8 @@ def call(f, *a, **k):
 
 
 def targets(rng, depth):
-    base = rng.choice(["http://t.com/x", "https://t.org", "t.com/y", "/x", "/?u=/x", "//t.com/z", "/a/../b", "http://", "https://", "ftp://t.com", "lemonde.fr", "", "/", "%2Fx"])
+    base = rng.choice(["http://t.com/x", "https://t.org", "t.com/y", "/x", "/?u=/x", "//t.com/z", "/a/../b", "http://", "https://", "ftp://t.com", "lemonde.fr", "", "/", "%2Fx",
+                       "http://[::1?u=/x", "http://b.com]/?next=/y"])
     if depth > 0 and rng.random() < 0.6:
         base = gen_url(rng, depth - 1)
     return base
